@@ -29,7 +29,8 @@ type Seg struct {
 type T struct {
 	S    string
 	So   string
-	Segs []Seg // optional, only for String sort terms built as byte concatenations
+	Segs []Seg  // optional, only for String sort terms built as byte concatenations
+	Nil  string // optional, only for byte-slice terms: SMT Bool term that is true iff the slice is nil (store.Get)
 }
 
 const (
